@@ -318,14 +318,26 @@ def run(chk, tier):
         lay = layered('mode')
         mv = prog.variant_names('trippy_tui::config::Mode')
         rc = layered('report_cycles')
-        ok = len(rows) == len(mv)
+        # a decision on an intermediate bool (`let runs_forever = matches!(mode, ..)`) is resolved through that local's own table
+        exp_rows = []
         for d, val, ev in rows:
-            dv = [v for a, v in d if a == 'discr(%s)' % lay and not isinstance(v, tuple)]
-            if not dv:
-                ok = False
-                continue
-            want = 'Option::None' if mv[dv[-1]] in ('Tui', 'Stream') else 'Option::Some(%s)' % rc
-            if val != want:
+            alts = [list(d)]
+            for a, v in d:
+                m_ = re.fullmatch(r'match:(\w+)', a)
+                if m_ and isinstance(v, int) and tables.get(m_.group(1)) is not None:
+                    _r2, rows2 = rows_of(m_.group(1))
+                    alts = [x + list(d2) for x in alts for d2, val2, _e2 in rows2 if val2 == str(v)]
+            exp_rows += [(x, val) for x in alts]
+        ok = bool(exp_rows)
+        for mi, mname in enumerate(mv):
+            # the rows this mode can take: decided as this variant, or "none of S" with the variant outside S
+            got = set()
+            for d, val in exp_rows:
+                dv = [v for a, v in d if a == 'discr(%s)' % lay]
+                if dv and all((v == mi) if not isinstance(v, tuple) else (v[0] == 'ne' and mi not in set(v[1])) for v in dv):
+                    got.add(val)
+            want = 'Option::None' if mname in ('Tui', 'Stream') else 'Option::Some(%s)' % rc
+            if got != {want}:
                 ok = False
         if ok:
             chk.ok('R2d', 'max_rounds', 'None for tui / stream, Some(layered report-cycles) for the %d report modes' % (len(mv) - 2))
